@@ -100,7 +100,7 @@ class HistorySuite(Suite):
     deterministic = False     # a disagreement is turned into a failing input by the Python property monitor
     rule = ("exhaustive: every sequence of <= 3 (quick) / <= 4 (thorough) operations from a 12-operation alphabet "
             "over proteins A,B,C (+unknown X), 13 lookups after every operation; random: up to 12 operations over 7 "
-            "proteins; non-trivial = at least one merge or add_unseen succeeded and the index was valid at some lookup")
+            "proteins (half of the runs: 11 identifiers that differ by padding, letter case, a prefix or a marker only); non-trivial = at least one merge or add_unseen succeeded and the index was valid at some lookup")
 
     def gen(self, rng, tier):
         init = [["A"], ["B"], ["C"]]
@@ -108,8 +108,11 @@ class HistorySuite(Suite):
         for n in range(1, maxlen + 1):
             for seq in itertools.product(OP_ALPHABET, repeat=n):
                 yield {"init": init, "ops": [list(o) for o in seq], "lookups": LOOKUPS}
-        prots = ["A", "B", "C", "D", "E", "F", "REV__A"]
         for _ in range(core.tier_n(tier, 300, 6000)):
+            prots = ["A", "B", "C", "D", "E", "F", "REV__A"]
+            if rng.random() < 0.5:
+                # identifiers are addressed verbatim: twins that differ by padding, letter case, a prefix, a marker
+                prots = ["A", "A ", " A", "a", "AB", "A\t", "sp|P1|A_HUMAN", "sp|P1|A_HUMAN ", "REV__A", "B", "b"]
             ng = rng.randint(0, 4)
             pool = prots[:]
             rng.shuffle(pool)
